@@ -251,8 +251,8 @@ def C18(ctx):
 def C17(ctx):
     # two harnesses built against the ThreadSanitizer flavour of hwloc and of the engine; every case is a forked child, the first TSan report ends it
     std_check_parallel(ctx, [
-        dict(harness="c17a", aliases=["c17_readers"], tag="c17-readers", cases=(260, 6000), workers=(10, 10), max_ops=40),
-        dict(harness="c17b", aliases=["c17_independent"], tag="c17-independent", cases=(70, 2500), workers=(6, 6), max_ops=24),
+        dict(harness="c17a", aliases=["c17_readers"], tag="c17-readers", cases=(600, 6000), workers=(10, 10), max_ops=40),
+        dict(harness="c17b", aliases=["c17_independent"], tag="c17-independent", cases=(170, 2500), workers=(6, 6), max_ops=24),
     ])
 
 
